@@ -101,6 +101,12 @@ Fixpoint pp_eq (a : list (Z * oval Z Z)) (b : list (Z * (bool * Z))) : bool :=
   | x :: a', y :: b' => Z.eqb (fst x) (fst y) && ov_eqb (snd x) (snd y) && pp_eq a' b'
   | _, _ => false
   end.
+(* resume suggestion under max_resource_attr: space, stored searcher configuration, key of max_resource_attr,
+   milestone, cast table, observed configuration of the suggestion *)
+Definition resume_case := (list (Z * entry Z Z) * list (Z * Z) * Z * Z * list (Z * Z * Z) * list (Z * (bool * Z)))%type.
+Definition chk_resume (c : resume_case) : bool :=
+  let '(space, cfg, mra, milestone, tbl, obs) := c in
+  pp_eq (postprocess_config Z Z Z Z.eqb (cast_tbl tbl) (with_milestone Z Z Z.eqb cfg mra milestone) space) obs.
 Definition chk_pp (c : pp_case) : bool :=
   let '(space, cfg, tbl, obs) := c in
   pp_eq (postprocess_config Z Z Z Z.eqb (cast_tbl tbl) cfg space) obs.
@@ -789,6 +795,9 @@ def run_sched_case(ctx, case):
                             break
                         if not sg.spawn_new_trial_id:
                             n_resume_checked += 1
+                            if mra and sg.checkpoint_trial_id in PAUSED and list(sg.config) == list(space):
+                                RESUME_TERMS.append((resume_term(space, PAUSED[sg.checkpoint_trial_id].config, mra, sg.config),
+                                                     dict(case, resumed_trial=sg.checkpoint_trial_id)))
                     if sg.spawn_new_trial_id:
                         new_cfgs.append(sg.config)
                         if sg.checkpoint_trial_id is None:
@@ -870,6 +879,7 @@ def run_sched_case(ctx, case):
 
 
 PAUSED = {}
+RESUME_TERMS = []
 
 
 # --------------------------------------------------------------------------
@@ -1171,6 +1181,25 @@ def run_shared_case(ctx, case):
 # --------------------------------------------------------------------------
 # 5. _postprocess_config unit cases
 # --------------------------------------------------------------------------
+def resume_term(space, stored, mra, out):
+    """model input for a resume suggestion: the trial's stored hyperparameter values, the milestone found under
+    max_resource_attr, and the configuration the scheduler suggested"""
+    from syne_tune.config_space import Domain
+    keys = {k: i for i, k in enumerate(space)}
+    vids = {}
+
+    def vid(v):
+        return vids.setdefault((type(v).__name__, repr(v)), len(vids))
+    sp_t = lst(["(%d, %s)" % (keys[k], ("EDom %d" % keys[k]) if isinstance(d, Domain) else "EConst %d" % vid(d))
+                for k, d in space.items()])
+    hp = {k: stored[k] for k, d in space.items() if isinstance(d, Domain) and k in stored}
+    cfg_t = lst(["(%d, %d)" % (keys[k], vid(v)) for k, v in hp.items()])
+    tbl = lst(["(%d, %d, %d)" % (keys[k], vid(v), vid(space[k].cast(v))) for k, v in hp.items()])
+    obs = lst(["(%d, (false, %d))" % (keys[k], keys[k]) if isinstance(v, Domain) else "(%d, (true, %d))" % (keys[k], vid(v))
+               for k, v in out.items() if k in keys])
+    return "(%s, %s, %d, %d, %s, %s)" % (sp_t, cfg_t, keys[mra], vid(out.get(mra)), tbl, obs)
+
+
 def run_pp_case(ctx, rng):
     from syne_tune.optimizer.scheduler import TrialScheduler
     from syne_tune.config_space import Domain
@@ -1379,7 +1408,10 @@ def run(ctx, replay=None):
             pp_terms.append(term)
             pp_meta.append(dict(case, **meta))
     ctx.traces_validated = len(cases)
-    for tag, fn, terms, meta, shard in (("rs", "chk_rs", rs_terms, rs_meta, 40), ("gs", "chk_gs", gs_terms, gs_meta, 40),
+    rz_terms, rz_meta = [t for t, _ in RESUME_TERMS], [m for _, m in RESUME_TERMS]
+    del RESUME_TERMS[:]
+    ctx.h("resume_suggestions_compared_with_model", len(rz_terms) // 10 * 10)
+    for tag, fn, terms, meta, shard in (("resume", "chk_resume", rz_terms, rz_meta, 60), ("rs", "chk_rs", rs_terms, rs_meta, 40), ("gs", "chk_gs", gs_terms, gs_meta, 40),
                                         ("prod", "chk_prod", prod_terms, prod_meta, 60),
                                         ("mb", "chk_mb", mb_terms, mb_meta, 10), ("batch", "chk_batch", bt_terms, bt_meta, 20),
                                         ("pp", "chk_pp", pp_terms, pp_meta, 80)):
@@ -1387,7 +1419,7 @@ def run(ctx, replay=None):
             continue
         if meta:
             ctx.sample(dict(correspondence=fn, case=meta[0]))
-        ty = dict(rs="rs_case", gs="gs_case", prod="(list (list Z) * list (list Z))%type", mb="mb_case", pp="pp_case", batch="batch_case")[tag]
+        ty = dict(rs="rs_case", gs="gs_case", prod="(list (list Z) * list (list Z))%type", mb="mb_case", pp="pp_case", batch="batch_case", resume="resume_case")[tag]
         terms = ["(%s : %s)" % (t, ty) for t in terms]
         for i in ctx.coq_bad_cases(tag, IMPORTS, PRELUDE, fn, terms, shard=shard):
             ctx.violation("correspondence", "model (%s) and implementation differ" % fn, case=meta[i],
